@@ -185,7 +185,7 @@ func c12TraceAt(cs *world.Case, st *gen.JStep, lo, hi int) (*world.ARec, *world.
 				case gen.JPtr:
 					ptr := st.Operands[i]
 					mem := scope.Memory.Data()
-					if !ptr.IsUint64() || ptr.Uint64()+32 > uint64(len(mem)) {
+					if !ptr.IsUint64() || ptr.Uint64() > uint64(len(mem)) || uint64(len(mem))-ptr.Uint64() < 32 {
 						live = false
 						continue
 					}
@@ -473,7 +473,7 @@ func init() {
 								if sig != "" {
 									for i := 0; i < 4; i++ {
 										if s2, _ := c12Run(c); s2 != sig {
-											w.Notes = append(w.Notes, "HARNESS ERROR: C12 violation did not reproduce: "+c.Note)
+											w.Notes = append(w.Notes, "UNREPRODUCED: C12 violation did not reproduce: "+c.Note)
 											return
 										}
 									}
